@@ -34,6 +34,7 @@ RULE += ' Round 6: strings that look like fragments of the formats; rows repeati
 RULE += " Round 7: several views of one buffer in one dictionary; cells starting with '#'; a list of path names whose parameter line exceeds 99 characters."
 RULE += " Round 8: top-level string keys that look like numbers without being str(int) output ('1_0', '+3', ' 4', superscript and full-width digits, '1e3' ...); parameter names starting or ending with '_'."
 RULE += ' Round 9: tables of 1100-2100 rows in which one field is given only in the last ten rows.'
+RULE += ' Round 10: tables written under .CSV / .TSV / .txt / no extension; cells containing line feeds and empty lines.'
 EXHAUSTIVE = {'quick': True, 'thorough': True}
 EXHAUSTIVE_SCOPE = {'quick': 'array matrix (dtype x rank x layout x length) exhaustive; dictionaries, '
                              'tables and params sampled', 'thorough': 'same matrix; larger random part'}
